@@ -1,5 +1,6 @@
 """C03 — the decoder accepts every specification-valid layout (read and skip
 paths), rejects out-of-range indices and short input."""
+import copy
 import io
 import itertools
 
@@ -74,7 +75,7 @@ BAD = lambda n: [-1, -2, n, n + 1, 1 << 31, -(1 << 63)]  # noqa
 
 
 def units(tier):
-    return list(range(len(family.schemas(tier))))
+    return ["huge"] + list(range(len(family.schemas(tier))))
 
 
 def _small(d, lim):
@@ -100,6 +101,36 @@ def _wrap_last(raw):
         {"type": "record", "name": "WrapL__", "fields": [{"name": "keep", "type": "int"}, {"name": "skipme", "type": raw}]},
         {"type": "record", "name": "WrapL__", "fields": [{"name": "keep", "type": "int"}]},
     )
+
+
+def evolve_enums(raw):
+    """The schema with every enum given other symbols (reordered, one more) and a default: what a reader of a later version
+    holds.  An index outside the WRITER's symbol list stays an error under it (it is not an 'unknown symbol')."""
+    found = []
+
+    def walk(x):
+        if isinstance(x, list):
+            return [walk(b) for b in x]
+        if isinstance(x, dict):
+            x = dict(x)
+            t = x.get("type")
+            if t == "enum":
+                x["symbols"] = list(reversed(x["symbols"])) + ["ZZZ"]
+                x["default"] = x["symbols"][0]
+                found.append(1)
+            elif t in ("record", "error"):
+                x["fields"] = [dict(f, type=walk(f["type"])) for f in x["fields"]]
+            elif t == "array":
+                x["items"] = walk(x["items"])
+            elif t == "map":
+                x["values"] = walk(x["values"])
+            elif isinstance(t, (dict, list)):
+                x["type"] = walk(t)
+            return x
+        return x
+
+    out = walk(copy.deepcopy(raw))
+    return out if found else None
 
 
 def check_bytes(fa, res, ctx, buf, expect, mode, seen):
@@ -157,6 +188,7 @@ def run_case(fa, res, raw, node, defs, d, tier, seen):
     except Exception:
         return
     W, R = _wrap(raw)
+    EV = evolve_enums(raw)
     info = {"schema": raw, "datum": d}
     note_case(info)
     ctx = (raw, W, R, info)
@@ -187,6 +219,15 @@ def run_case(fa, res, raw, node, defs, d, tier, seen):
             mutated = single[:a] + binary.zigzag(bad) + single[b:]
             res.stats["bad_index_cases"] += 1
             check_bytes(fa, res, (raw, W, R, dict(info, bad_index=bad, at=a, kind=kind)), mutated, None, "bad-index", seen)
+            if EV is not None:
+                res.evals += 1
+                try:
+                    got = fa.schemaless_reader(io.BytesIO(mutated), raw, EV)
+                except Exception:
+                    continue
+                res.add(Violation("c03.bad-index.read", "bad-index-returned-value:evolved-reader",
+                                  f"bad-index encoding {mutated[:80].hex()} ({kind} index {bad}) read with a reader schema whose enums have other symbols and a default returned {short(got)} instead of raising | {short(info, 300)}",
+                                  dict(info, bad_index=bad, at=a, kind=kind, buf=mutated, mode="bad-index-evolved")))
     # (c) proper prefixes: read path on value bytes, skip path on the wrapped record's bytes
     WL, RL = _wrap_last(raw)
     for cut in range(len(single)):
@@ -204,10 +245,47 @@ def run_case(fa, res, raw, node, defs, d, tier, seen):
                           dict(info, buf=single[:cut], mode="prefix-last", cut=cut)))
 
 
+def run_huge(fa, res):
+    """Prefixes of encodings that end in a bytes / string payload longer than 1 MiB (read, and skipped as a trailing field)."""
+    seen = 0
+    for kind in ("bytes", "string"):
+        for size in ((1 << 20) + 5, (1 << 20), 3 * (1 << 20) + 1):
+            payload = (b"p" * size)
+            enc = binary.zigzag(7) + binary.zigzag(size) + payload
+            raw = {"type": "record", "name": "Huge", "fields": [{"name": "n", "type": "int"}, {"name": "v", "type": kind}]}
+            WL = {"type": "record", "name": "WrapH__", "fields": [{"name": "keep", "type": "int"}, {"name": "skipme", "type": raw}]}
+            RL = {"type": "record", "name": "WrapH__", "fields": [{"name": "keep", "type": "int"}]}
+            info = {"schema": raw, "datum": f"<{size} bytes>", "huge": size}
+            cuts = sorted(set(list(range(0, 8)) + [len(enc) - d for d in (1, 2, 3, 5, 1000, 65536, 65537)] + [(1 << 20) + d for d in (-3, -1, 0, 1, 2, 3, 4, 5, 6, 7)]
+                              + [m * 65536 + d for m in (1, 8, 15, 16, 17, 32) for d in (-1, 0, 1)]))
+            # the intact encoding must read
+            res.evals += 1
+            got = fa.schemaless_reader(io.BytesIO(enc), raw)
+            if len(got["v"]) != size:
+                res.add(Violation("c03.valid-layout.read", "valid-layout-wrong-value:huge", f"{size}-byte {kind} read back with length {len(got['v'])}", dict(info, mode="huge")))
+            for cut in cuts:
+                if not (0 <= cut < len(enc)):
+                    continue
+                seen += 1
+                for how, buf, args in (("read", enc[:cut], (raw,)), ("skip-last", binary.zigzag(KEEP) + enc[:cut], (WL, RL))):
+                    res.evals += 1
+                    try:
+                        out = fa.schemaless_reader(io.BytesIO(buf), *args)
+                    except Exception:
+                        continue
+                    res.add(Violation("c03.prefix." + how, f"prefix-returned-value:huge-{kind}",
+                                      f"prefix of {cut} of {len(enc)} bytes ending inside a {size}-byte {kind} payload ({how}) returned a value of type {type(out).__name__} instead of raising", dict(info, mode="huge", cut=cut)))
+    res.distinct = seen
+    res.sample({"huge_payloads": "1 MiB, 1 MiB + 5, 3 MiB + 1; bytes and string", "cuts": seen})
+    return res
+
+
 def run_unit(i, tier):
     import fastavro as fa
 
     res = UnitResult()
+    if i == "huge":
+        return run_huge(fa, res)
     raw = family.schemas(tier)[i]
     node, defs = names.resolve(raw)
     lim = 4 if tier == "quick" else 6
@@ -241,6 +319,8 @@ def replay(case):
     import fastavro as fa
 
     res = UnitResult()
+    if case.get("mode") == "huge":
+        return run_huge(fa, res).violations
     raw = case["schema"]
     node, defs = names.resolve(raw)
     W, R = _wrap(raw)
@@ -250,6 +330,13 @@ def replay(case):
         try:
             got = fa.schemaless_reader(io.BytesIO(binary.zigzag(KEEP) + case["buf"]), WL, RL)
             res.add(Violation("c03.prefix.skip", "prefix-skip-last-returned-value", f"returned {short(got)}", case))
+        except Exception:
+            pass
+        return res.violations
+    if case["mode"] == "bad-index-evolved":
+        try:
+            got = fa.schemaless_reader(io.BytesIO(case["buf"]), raw, evolve_enums(raw))
+            res.add(Violation("c03.bad-index.read", "bad-index-returned-value:evolved-reader", f"returned {short(got)}", case))
         except Exception:
             pass
         return res.violations
